@@ -2,6 +2,8 @@
 import json
 import os
 
+import pqv_bign
+
 _T = json.load(open(os.path.join(os.path.dirname(os.path.abspath(__file__)), "pqv_theorems.json")))
 
 
@@ -35,6 +37,10 @@ def rnd(kind, profile, count, length, prios="small", keys=12, hashmode=0, exclud
 # iterator kinds other than the one a property is about
 NOT_ITERMUT = "iter,intoiter,drain,sortediter"
 NO_ITERS = "itermut,iter,intoiter,drain,sortediter"
+
+
+def pygen(name, count):
+    return dict(args=["py", name, "{seed}", str(count)])
 
 
 def builds(kind, maxn, prios=3):
@@ -79,7 +85,7 @@ PROPS = {
             [rnd("both", "all", 30000, 80), builds("pq", 6), builds("dpq", 6)]),
     ),
     "C05": dict(
-        theorems=None,
+        theorems=None, impl_search=pqv_bign.search,
         gens=tiers(
             [rnd("both", "core", 200, 1500, keys=1000, prios="wide"),
              rnd("both", "bulk", 300, 200, keys=200, prios="wide", exclude="serde,deser,eq,sortedvec,intovec,extend"),
@@ -144,8 +150,9 @@ PROPS = {
     "C14": dict(
         theorems=None, drop=["t", "hq"],
         gens=tiers(
-            [rnd("both", "bulk", 4000, 50, exclude="serde,deser,retain,retainmut,sortedvec,intovec", boost="eq:6,clone:4")],
-            [rnd("both", "bulk", 30000, 80, exclude="serde,deser", boost="eq:6,clone:4")]),
+            [rnd("both", "bulk", 4000, 50, exclude="serde,deser,retain,retainmut,sortedvec,intovec", boost="eq:6,clone:4"),
+             pygen("eq_twins", 6000)],
+            [rnd("both", "bulk", 30000, 80, exclude="serde,deser", boost="eq:6,clone:4"), pygen("eq_twins", 60000)]),
     ),
     "C15": dict(
         theorems=None, drop=["t"],
@@ -156,13 +163,18 @@ PROPS = {
     "C16": dict(
         theorems=None, drop=["t"],
         gens=tiers(
-            [rnd("both", "iter", 4000, 50, exclude="itermut,iter,intoiter,sortediter", boost="drain:6,clear:20")],
+            [rnd("both", "iter", 4000, 50, exclude="itermut,iter,intoiter,sortediter", boost="drain:6,clear:20"),
+             # large capacities / large queues: clear and drain must not depend on them
+             rnd("both", "all", 1500, 60, exclude="itermut,iter,intoiter,sortediter,serde,deser", boost="clear:25,drain:10,withcap:12,reserve:4"),
+             rnd("both", "core", 150, 500, keys=400, prios="wide", boost="clear:30")],
             [rnd("both", "iter", 30000, 80, exclude="itermut", boost="drain:6,clear:20")]),
     ),
     "C17": dict(
         theorems=None, drop=["t"],
         gens=tiers(
-            [rnd("both", "cap", 4000, 60)],
+            [rnd("both", "cap", 4000, 60),
+             # capacity operations interleaved with everything else (append, extend, conversions, ...)
+             rnd("both", "all", 3000, 60, boost="reserve:6,reservex:6,tryreserve:6,tryreservex:6,shrink:8,withcap:8,capacity:3,append:5")],
             [rnd("both", "cap", 30000, 80)]),
     ),
     "C18": dict(
